@@ -36,7 +36,14 @@ def sites_path():
 def gen():
     """Run the translator on common.REPO.  Returns the inventory (dict).
     Raises RuntimeError when the translator cannot handle the source (a
-    broken tie, reported by main())."""
+    broken tie, reported by main()).  coq/gen/GenC04Sites.v is shared by
+    every run (whatever VERIF_REPO), so generation and the Coq build that
+    follows it in main() are serialised by one lock."""
+    with common.Lock("c04-inventory"):
+        return _gen()
+
+
+def _gen():
     exe, log = common.go_build("./cmd/genc04")
     if exe is None:
         raise RuntimeError("cannot build the C04 translator:\n" + log[-3000:])
@@ -392,9 +399,31 @@ def main(tier, replay):
         "third-party decoders (ugorji codec, gorilla websocket) and transport/serialize reflection: sampled here, modelled by C14/C15",
     ]
 
-    # 1. translator
+    # 1. translator, 2. Coq obligations: under one lock, in the background,
+    # while the harness is built and run
+    coq, invbox, gen_done = {}, {}, threading.Event()
+
+    def gen_and_prove():
+        with common.Lock("c04-inventory"):
+            try:
+                invbox["inv"] = _gen()
+            except Exception as e:          # noqa: BLE001
+                invbox["err"] = e
+                gen_done.set()
+                return
+            gen_done.set()
+            try:
+                coq.update(common.coq_props(PID, extra_files=EXTRA_COQ))
+            except Exception as e:          # noqa: BLE001
+                coq.update(ok=False, failed="coq_props raised: %r" % e, obligations=[], discharged=[], assumptions={}, axioms=[])
+
+    th = threading.Thread(target=gen_and_prove)
+    th.start()
+    gen_done.wait()
     try:
-        inv = gen()
+        if "err" in invbox:
+            raise invbox["err"] if isinstance(invbox["err"], RuntimeError) else RuntimeError(repr(invbox["err"]))
+        inv = invbox["inv"]
     except RuntimeError as e:
         common.info("C04: translator: %s" % e)
         v.violation({"kind": "broken-tie", "obligations": ["translator genc04"], "detail": str(e)[-3000:], "repo": common.REPO}, no_input=True)
@@ -403,11 +432,6 @@ def main(tier, replay):
         return v.exit_code()
     sites = inv["sites"]
     unsafe = [sites[i] for i in inv["unsafe_client_sites"]]
-
-    # 2. Coq obligations (in the background) while the harness is built and run
-    coq = {}
-    th = threading.Thread(target=lambda: coq.update(common.coq_props(PID, extra_files=EXTRA_COQ)))
-    th.start()
 
     exe, blog = common.go_build("./cmd/c04drive")
     if exe is None:
